@@ -551,18 +551,54 @@ fn run_b(rep: &mut Report, a: &Args, rng: &mut Rng, w: &mut World) {
 		}
 		let _ = w.mine(Some(0), true);
 	}
-	let _ = w.mine_n(None, 2);
+	// a second account on both wallets with coins of its own, so that the source account of a
+	// payment can differ from the wallet's active account (InitTxArgs.src_acct_name)
+	for i in 0..2 {
+		let _ = w.wallets[i].create_account("acct1");
+		let _ = w.wallets[i].set_account("acct1");
+		let _ = w.mine_n(Some(i), 3);
+		let _ = w.wallets[i].set_account("default");
+	}
+	let _ = w.mine_n(None, 4);
+	for i in 0..2 {
+		for acct in ["acct1", "default"].iter() {
+			let _ = w.wallets[i].set_account(acct);
+			let _ = w.wallets[i].refresh();
+		}
+	}
 	let n_cases = if a.thorough() { 500 } else { 40 };
 	for ci in 0..n_cases {
 		let wi = rng.usize(2);
 		let wal = &w.wallets[wi];
+		// source account: the active one (default or acct1), or named through src_acct_name while the other is active
+		let src_mode = rng.below(4); // 0,1: active default; 2: src_acct_name=acct1 while default is active; 3: acct1 active
+		let (active, src_name): (&str, Option<String>) = match src_mode {
+			2 => ("default", Some("acct1".to_string())),
+			3 => ("acct1", None),
+			_ => ("default", None),
+		};
+		let src_label = src_name.clone().unwrap_or_else(|| active.to_string());
+		let _ = wal.set_account(&src_label);
 		if wal.refresh().is_err() {
 			rep.inconclusive("refresh failed");
+			let _ = wal.set_account("default");
+			continue;
+		}
+		let _ = wal.set_account(active);
+		if wal.refresh().is_err() {
+			rep.inconclusive("refresh failed");
+			let _ = wal.set_account("default");
 			continue;
 		}
 		let height = w.node.chain().head().unwrap().height;
 		let before_outs = wal.all_outputs().unwrap();
-		let parent = wal.active_account().unwrap();
+		let parent = match wal.accounts().ok().and_then(|a| a.into_iter().find(|m| m.label == src_label)) {
+			Some(m) => m.path,
+			None => {
+				rep.inconclusive("source account missing");
+				continue;
+			}
+		};
 		let minconf = *rng.pick(&[0u64, 1, 1, 3, 10]);
 		let elig: Vec<&OutputData> = before_outs.iter().filter(|o| spendable(o, &parent, height, minconf)).collect();
 		let tot: u128 = elig.iter().map(|o| o.value as u128).sum();
@@ -583,10 +619,11 @@ fn run_b(rep: &mut Report, a: &Args, rng: &mut Rng, w: &mut World) {
 			selection_strategy_is_use_all: rng.bool(),
 			estimate_only: Some(mode == 1),
 			late_lock: Some(mode == 2),
+			src_acct_name: src_name.clone(),
 			..Default::default()
 		};
 		let mode_name = ["send", "estimate_only", "late_lock", "pay_invoice"][mode as usize];
-		let args_j = json!({"wallet": wi, "mode": mode_name, "amount": amount.to_string(), "amount_includes_fee": includes_fee,
+		let args_j = json!({"wallet": wi, "mode": mode_name, "active_account": active, "src_acct_name": src_name, "amount": amount.to_string(), "amount_includes_fee": includes_fee,
 			"minimum_confirmations": minconf, "max_outputs": args.max_outputs, "num_change_outputs": args.num_change_outputs, "use_all": args.selection_strategy_is_use_all,
 			"height": height, "wallet_outputs": before_outs.iter().map(out_json).collect::<Vec<_>>()});
 		let case = || json!({"workload":"B", "case": ci, "args": args_j});
@@ -596,6 +633,13 @@ fn run_b(rep: &mut Report, a: &Args, rng: &mut Rng, w: &mut World) {
 
 		// the operation
 		let other = &w.wallets[1 - wi];
+		// pending entries live in the source account: release them there (cancel addresses the active account)
+		let cancel_all = |sid: Uuid| {
+			for l in ["acct1", "default"].iter() {
+				let _ = wal.set_account(l);
+				let _ = wal.cancel(None, Some(sid));
+			}
+		};
 		let res = catch(|| -> Result<(libwallet::Slate, Uuid), libwallet::Error> {
 			if mode == 3 {
 				let inv = other.issue_invoice(IssueInvoiceTxArgs { amount, ..Default::default() })?;
@@ -674,8 +718,16 @@ fn run_b(rep: &mut Report, a: &Args, rng: &mut Rng, w: &mut World) {
 				}
 				Ok(Err(e)) => {
 					rep.count(&format!("B:late-lock-finalize-refused:{}", err_kind(&e)));
+					// whatever a refused late-locked finalization reserved must at least belong to the source account
+					let outs_after = wal.all_outputs().unwrap_or_default();
+					for o in outs_after.iter().filter(|o| o.status == OutputStatus::Locked && o.root_key_id != parent) {
+						let was = before_outs.iter().find(|b| b.key_id == o.key_id && b.mmr_index == o.mmr_index);
+						if was.map(|b| b.status != OutputStatus::Locked).unwrap_or(true) {
+							rep.violation("C01|late-lock-reserved-output-of-another-account", &format!("late-locked finalize of a send from account {} was refused ({}) and left output {} of another account reserved", src_label, err_kind(&e), out_json(o)), case());
+						}
+					}
 					let _ = other.cancel(None, Some(sid));
-					let _ = wal.cancel(None, Some(sid));
+					cancel_all(sid);
 					continue;
 				}
 				Ok(Ok(fin)) => {
@@ -705,7 +757,7 @@ fn run_b(rep: &mut Report, a: &Args, rng: &mut Rng, w: &mut World) {
 							}
 						}
 					}
-					let _ = wal.cancel(None, Some(sid));
+					cancel_all(sid);
 					let _ = other.cancel(None, Some(sid));
 					continue;
 				}
@@ -765,7 +817,7 @@ fn run_b(rep: &mut Report, a: &Args, rng: &mut Rng, w: &mut World) {
 		// nothing is reserved by initiation alone: release the context by cancelling where an entry exists
 		if mode == 3 {
 			let _ = wal.lock_outputs(&slate);
-			let _ = wal.cancel(None, Some(sid));
+			cancel_all(sid);
 			let _ = other.cancel(None, Some(sid));
 		}
 	}
